@@ -163,3 +163,13 @@ Print Assumptions C13_same_tree.
 Print Assumptions C13_same_tree_gen.
 Print Assumptions C13_value.
 Print Assumptions C13_fuel_stable.
+
+(* ---- source tie: the hand-written model behind these theorems mirrors the files below; the digests of their
+   functions regenerated from /repo on this run equal the reviewed ones (coq/Doc/DocSrcDigest.v).  Any edit of
+   such a function breaks this obligation: the differential tie and the oracle then decide (tools/check.py). *)
+From Sylt Require Doc.SrcDigest Doc.DocSrcDigest Gen.GenSrcDigest.
+Theorem C13_model_sources_reviewed :
+  Sylt.Doc.SrcDigest.sources_reviewed ["sylt-parser/src/parser.rs"%string; "sylt-parser/src/expression.rs"%string; "sylt-parser/src/statement.rs"%string]
+    Sylt.Doc.DocSrcDigest.doc_src_digests Sylt.Gen.GenSrcDigest.src_digests = true.
+Proof. vm_compute. reflexivity. Qed.
+Print Assumptions C13_model_sources_reviewed.
